@@ -292,16 +292,18 @@ impl IndexFooter {
     /// Validate footer integrity using MD5
     pub fn is_valid(&self) -> bool {
         let expected = self.calculate_footer_hash();
-        let actual_len = self.footer_hash.len().min(self.footer_hash_bytes as usize);
-        // `footer_hash_bytes` comes from the file and may exceed the 8 bytes
-        // that `calculate_footer_hash` produces; such a footer is not valid.
-        match (
-            self.footer_hash.get(..actual_len),
-            expected.get(..actual_len),
-        ) {
-            (Some(actual), Some(expected)) => actual == expected,
-            _ => false,
+        // The stored hash must have the declared length: comparing only the
+        // bytes that happen to be there would accept a footer whose hash was
+        // cut short. `footer_hash_bytes` comes from the file and may exceed
+        // the 8 bytes that `calculate_footer_hash` produces; such a footer is
+        // not valid either.
+        let len = self.footer_hash_bytes as usize;
+        if self.footer_hash.len() != len {
+            return false;
         }
+        expected
+            .get(..len)
+            .is_some_and(|expected| self.footer_hash == expected)
     }
 
     /// Write footer to writer
